@@ -36,6 +36,16 @@ claimed = {
    "commit/open refuse a bound that is not enforced, below the degree or above the maximum; honest use with any admissible bound is accepted (C01 theorem with bounds); a commitment accepted under d' is accepted under d iff h*xi'*v*(shift(d')-shift(d)) = 0; dropped/added shifted parts abort; boundary generator and relabel/drop/swap mutations on trapdoor keys decided by implementation and model."),
  "C09": ("Lean proof (trim of trapdoor-made parameters yields exactly the stated sub-keys) + real-setup correspondence",
    "trim_wf: prefix powers, gamma powers, shifted window, shift elements for sort(dedup(bounds)), truthful reports, interoperable verifier core, out-of-range refused; real setup: trapdoor recovered by RNG replay and verified on every element plus pairing identities; transparent generators valid, distinct, deterministic, prefix-stable."),
+ "C06": ("Lean proof (a combination of honest commitments is an honest commitment of the combined polynomial; value split; bound policy) + perturbation correspondence on all schemes",
+   "combineLC of honestly committed unbounded polynomials is Honest, so the completeness theorem applies to combination openings; the combined polynomial evaluates to LC.value minus constants; a bounded polynomial mixed with other terms is refused; harness: arbitrary coefficient classes, repeated labels, constants, several combinations per point, labels sharing a point value, and the four perturbation kinds (value, coefficient, constant, transmitted evaluations) on all eight trait schemes."),
+ "C11": ("Lean proof (lock-step over any history by induction; exact displaced-proof condition) + LogSponge event comparison on histories",
+   "prover and verifier consume the same challenges and leave the same remainder after every prefix of any operation history, and every check accepts; a proof verified under another challenge is accepted iff h*g*(xi'-xi)*(p(beta)-p(z)) = 0; harness: histories of open/batch_open/open_combinations on one pre-seeded logging sponge, event lists and end states compared after every prefix, perturbed pre-states and displaced proofs must be refused (all schemes)."),
+ "C14": ("Lean proof (space = time outputs for every coefficient list; verify iff; fold iterators enumerate the foldings for every length) + exhaustive iterator correspondence",
+   "18 theorems: Space.open = Time.open, commit, multi-point quotient/remainder, verify/verify_multi_points completeness and exact acceptance, FoldedPolynomialTree/Stream = naive fold for all lengths, commit_folding/open_folding offsets; harness: time vs space vs model for degrees 0..256, 1..8 points, 1..8 polynomials, six buffer sizes, both verifier keys; all lengths 1..130 x depths 0..7."),
+ "C15": ("Lean proof (divideAtPoint exact for every sparse polynomial; Combinations iterator sound for all inputs; setup enumeration complete on the 6x6 grid by decide +kernel; PST13 completeness) + real-setup correspondence",
+   "16 theorems incl. pst13_complete(_list), trim keeps exactly degree <= s; partial: general-(n,D) completeness of the enumeration (proved on the property's whole grid). Harness: Combinations hook vs model, real setup on the grid (key set = all exponent vectors, every element = m(beta)*g, pairing relations), trapdoor-mode commit/open/check with mutations."),
+ "C19": ("Lean proof (shape theorems of the prover models, batch proof count, linear-code dimension inequalities) + measured serialized sizes against each scheme's law",
+   "KZG/Marlin/Sonic proof = 1 element (+1 scalar iff hiding), commitment +1 element iff bound, one proof per distinct point label; PST13 nv elements; IPA 2*log2(d+1); Hyrax 2^(n/2); linear codes: constant commitment, proof within 4x of the best power-of-two matrix shape once t < codeword length. Partial: the full-ceiling inequality and the f64 sqrt are tied by correspondence."),
 }
 # properties whose machinery is not built yet (listed under not_applicable with that reason, as the brief asks)
 not_yet = {
